@@ -612,7 +612,7 @@ pub fn subs(_env: &Env) -> Vec<Sub> {
             "every position of a 256-bit storage block populated alone with all 128 values of the seven intermediates: the three table-index conversions equal the per-bit reference"),
         Sub::random("three_party_consistency", 300, 3000, 100_000, three_party_consistency,
             "dense generated three-party views of 256 multiplications (all-zero / all-one / random shares and masks): conversions equal the per-bit reference; prover indices equal the left verifier's u and the right verifier's v and every position sums to -1/2; after flipping one generated (helper, entry, position) bit some table relation fails at exactly that position; distinct by the flipped (helper, entry, position)"),
-        Sub::random("e2e", 40, 400, 12_000, e2e,
+        Sub::random("e2e", 40, 3000, 60_000, e2e,
             "TestWorld malicious contexts, Boolean vectors of width {1,3,8,20,32,64,256}, 1-3 steps per batch, record counts chosen so the bit-multiplication count hits 1, 255/256/257, 2^k, 2^k+-1, 32*8^j(+1), >8192 (recursion boundary, TARGET_PROOF_SIZE=8192 in test builds) or random; single-shot validate() or validate_record via validated_seq_join with 2^0..2^7 records per batch. Honest run must be accepted by all helpers with the right product; then one fault - a flipped bit of one transmitted z message (interceptor) or of one recorded intermediate (x/y/prss/z entry pushed with a flipped bit) - must make at least one helper return DZKPValidationFailed/ParallelDZKPValidationFailed; non-trivial = fault applied inside the populated part")
         .shrink_iters(12),
     ]
